@@ -37,7 +37,7 @@ RULE = ('cases = histories of 2..30 decodes in ONE process mixing well-formed, d
         'model of the update rules folded over the ordered look-ups the code performed since the process started, and every entry is re-imported; '
         'the component-id loader on generated configuration directories; plus -a vs per-file -f and -a vs -a -r; non-trivial = a step preceded by '
         'a failing or plugin-raising decode; distinct by (history prefix, bytes)')
-UD_FIX = {'x1111': ('echo',), 'x2222': ('raises', 'boom'), 'x3333': ('none',), 'x7777': ('raises_import', 'No module named frobnicate'), 'x8888': ('import_raises', 'load failure'), 'o1234': ('echo',),
+UD_FIX = {'x5a5a': ('raises', ''), 'x1111': ('echo',), 'x2222': ('raises', 'boom'), 'x3333': ('none',), 'x7777': ('raises_import', 'No module named frobnicate'), 'x8888': ('import_raises', 'load failure'), 'o1234': ('echo',),
           'x9999': ('import_error', 'cannot import name frobnicate'), 'x6666': ('import_mnf',)}
 # SRC parsers by creator (x: fine, w: the call raises, y / v / u: the import fails) and the component parsers behind the BMC wrapper
 # (8D fine, AB: the call raises ImportError, 7A / 78 / 66: the import fails, anything else: not there; BD..77.. is rejected by the registry); the hostboot parser `bsrc` is
@@ -88,7 +88,7 @@ def gen_step(rng):
                         c['fru']['pn'] = rng.choice([b'PROC0001', b'PROC0002', b'PROCBAD!', b'PROCBAD!', b'BMC0001\0'])
         else:
             sec = {'kind': k, 'hdr': apel.gen_hdr(rng), 'payload': apel.gen_payload(rng)[:200]}
-            sec['hdr']['comp'] = rng.choice([0x1111, 0x2222, 0x3333, 0x7777, 0x7777, 0x8888, 0x8888, 0x9999, 0x6666, 0x1234, 0x2000, 0x4444])
+            sec['hdr']['comp'] = rng.choice([0x1111, 0x2222, 0x3333, 0x7777, 0x7777, 0x8888, 0x8888, 0x9999, 0x6666, 0x1234, 0x2000, 0x4444, 0x5A5A])
             if k == 'ed':
                 sec.update(creator=ord(rng.choice('xxO')), resv1=0, resv2=0)
         secs.append(sec)
